@@ -78,6 +78,8 @@ def type_children(T: dict) -> list:
         return list(T['alts'])
     if k == 'ann':
         return [T['t']]
+    if k == 'ndarray':
+        return [T['e']]
     if k == 'tvar':
         return list(T['ts'])
     if k == 'tagged':
@@ -948,3 +950,17 @@ def ev_created(ident: int, c: Case) -> dict:
             supplied = set()
         e['ids'], e['isfac'] = _observe_instance(x, cls, supplied)
     return e
+
+
+def _noop_handler(ty, args, *, handlers):
+    return NotImplemented
+
+
+def ev_from_data_custom(ident: int, c: Case) -> dict:
+    """from_data under a second (behaviourally empty) handler set: a second converter is built for the
+    same type; the outcome must be the one the semantics gives for the type alone."""
+    if c.bf is not None:
+        return ev_from_data(ident, c)
+    out = outcome(pane.from_data, c.val, c.ty, custom=_noop_handler)
+    out2 = outcome(pane.from_data, c.val, c.ty, custom=[_noop_handler])
+    return {'id': ident, 'op': 'from_data', 'ty': c.T, 'val': c.v, 'out': out, 'rerun': 'T' if out == out2 else 'F'}
